@@ -254,6 +254,63 @@ def worker(args, scratch):
                 res["violations"].append(["failed-summary-wrong-destination-or-count:cross-endpoint-%s" % mode,
                                           {"missing": {str(k): v for k, v in (expected - ms).items()}, "extra": {str(k): v for k, v in (ms - expected).items()}}])
             res["nontrivial"].append(common.sha(["cross-endpoint", mode, args["shard"]]))
+        # ---- several requests with different verdicts on ONE keep-alive connection, and a caller that becomes another program
+        # (execve in the same pid) between connections: every request is judged and recorded on its own
+        ka_doc = {"defaultAccess": "deny", "id": "ka", "rules": {"privileges": [{"name": "pub", "path": "/public"}], "roles": [{"name": "ro", "privileges": ["pub"]}],
+                                                                  "identities": [{"name": "root-only", "userName": "root"}], "roleAssignments": [{"role": "ro", "identities": ["root-only"]}]}}
+        for mode in ("enforce", "audit"):
+            w.rules("imds", dict(ka_doc, mode=mode, id="ka-" + mode))
+            w.shim.call("clear_summaries")
+            who = callers[0]
+            exe_caller = w.identity("root", "firstprog", ["--ka", mode], exec_capable=True)
+            expected = collections.Counter()
+            conn = w.open("imds", who)
+            plan = [r.choice(["/public/a", "/secret/b", "/public/c?x=1", "/other"]) for _ in range(12)]
+            plan[0] = "/public/first"      # the first verdict on the connection is 'allowed'
+            plan[1] = "/secret/second"
+            for k, url in enumerate(plan):
+                vid = "c11-ka-%s-%d-%d" % (mode, args["shard"], k)
+                denied = not url.startswith("/public")
+                try:
+                    conn.send(rawhttp.build_request("GET", url, [("x-vf-id", vid)]))
+                    st = conn.read_response().status
+                except Exception as e:  # noqa
+                    st = "error:%r" % (e,)
+                    try:
+                        conn.close()
+                    except Exception:  # noqa
+                        pass
+                    conn = w.open("imds", who)
+                res["evaluations"] += 1
+                relayed = bool(w.upstream(vid))
+                wit = {"mode": mode, "position_on_connection": k, "url": url, "status": st, "relayed": relayed, "earlier_urls": plan[:k]}
+                if denied:
+                    expected[(who.user, wproxy.DESTS["imds"][0], wproxy.DESTS["imds"][1], who.exe, who.cmdline)] += 1
+                    if mode == "enforce" and (st != 403 or relayed):
+                        res["violations"].append(["enforce-denial-not-403" if st != 403 else "enforce-denial-relayed", wit])
+                    if mode == "audit" and (st != 200 or not relayed):
+                        res["violations"].append(["audit-denial-not-forwarded", wit])
+                elif st != 200 or not relayed:
+                    res["violations"].append(["allowed-request-not-forwarded", wit])
+            conn.close()
+            # the exec part: the same pid first runs a program, is denied; then runs another program, is denied again
+            for gi in range(2):
+                if gi:
+                    exe_caller.exec_to("secondprog", ["--after-exec"])
+                c2 = w.open("imds", exe_caller)
+                c2.send(rawhttp.build_request("GET", "/secret/x%d" % gi, [("x-vf-id", "c11-kax-%s-%d-%d" % (mode, args["shard"], gi))]))
+                c2.read_response()
+                c2.close()
+                expected[(exe_caller.user, wproxy.DESTS["imds"][0], wproxy.DESTS["imds"][1], exe_caller.exe, exe_caller.cmdline)] += 1
+                res["evaluations"] += 1
+            time.sleep(0.15)
+            ms = summary_multiset(w.shim.call("summaries")["failed"])
+            bump("keepalive_mixed_verdict_requests", len(plan))
+            if ms != expected:
+                res["violations"].append(["failed-summary-%s:keep-alive-and-exec-%s" % ("undercount" if (expected - ms) and not (ms - expected) else "mismatch", mode),
+                                          {"missing": {str(k): v for k, v in (expected - ms).items()}, "extra": {str(k): v for k, v in (ms - expected).items()}, "plan": plan}])
+            res["nontrivial"].append(common.sha(["keep-alive-mixed", mode, args["shard"]]))
+        w.rules("imds", None)
         for p in w.shim.panics():
             res["violations"].append(["panic:%s" % p.get("location"), p])
     finally:
